@@ -1217,3 +1217,18 @@ mutant("c15-class-name-always-qualified", "C15", (O, """        package = ""
 
         package = representation.package_of(x)
 """), "R5/Operation.class_name/prefix")
+
+# ------------------------------------------------------------------------------------------ C03 at infinity
+equivalent("c03-eq-cosine-redundant-isfinite", "C03", (T, "                np.isfinite(x) & within,", "                within,"))
+mutant("c03-gaussian-sign", "C03", (T, "            * np.exp(-np.square(x - m) / (2.0 * std**2))", "            * np.exp(np.square(x - m) / (2.0 * std**2))"), "A1b/Gaussian.membership")
+mutant("c03-spike-no-abs", "C03", (T, "np.exp(-np.abs(10.0 / w * (x - c)))", "np.exp(-(10.0 / w * (x - c)))"), "A1b/Spike.membership")
+mutant("c03-sigmoid-difference-no-abs", "C03", (T, "        y = self.height * np.where(np.isnan(x), np.nan, 1.0) * np.abs(a - b)", "        y = self.height * np.where(np.isnan(x), np.nan, 1.0) * (a - b)"), "A1b/SigmoidDifference.membership")
+mutant("c03-triangle-outside-nan", "C03", (T, """            * np.where(
+                (x < a) | (x > c),
+                0.0,
+                np.where(
+                    (x == b) | ((a == -inf) & (x < b)) | ((c == inf) & (x > b)),""", """            * np.where(
+                (x < a) | (x > c),
+                nan,
+                np.where(
+                    (x == b) | ((a == -inf) & (x < b)) | ((c == inf) & (x > b)),"""), "A1b/Triangle.membership")
